@@ -310,6 +310,15 @@ def main():
     targets = list(mod.LEAN_TARGETS) + ["rspdrive"]
     ok, failing, out = lake_build(targets)
     proof_broken = []
+    # a fact the property's tie theorems refer to but the extractor could no longer locate leaves those theorems vacuous
+    used = set()
+    for t in mod.LEAN_TARGETS:
+        if t.startswith("Rsp.Tie."):
+            try:
+                used |= set(re.findall(r"Generated\.(\w+)", open(os.path.join(LEAN, *t.split(".")) + ".lean").read()))
+            except OSError:
+                pass
+    lost_ties = sorted(used & set(untied))
     if not ok:
         proof_broken = failing
         # the driver may still be buildable without the broken theorem files
@@ -322,6 +331,8 @@ def main():
             print(f"VIOLATION property={prop} replay={path} no-failing-input-found")
             _evidence(mod, prop, args.tier, seed, t0, [], {}, 1, notes + ["lean build failed"], discharged=0)
             sys.exit(1)
+
+    proof_broken = list(proof_broken) + ["tie-lost:" + n for n in lost_ties]
 
     # 4. audit
     bad_src = audit_sources()
